@@ -112,11 +112,11 @@ def step (s : St) : Op → Option St
   | .stop =>
     match s.subs.getLast? with
     | none => none
-    | some old => some { s with subs := s.subs.dropLast, main := old }
+    | some old => some { s with subs := s.subs.dropLast, main := old, offset := 0 }   -- clear_line_offsets() (since /repo 499dd90)
   | .resolveHook =>
     match s.subs.getLast? with
     | none => some s
-    | some old => some { s with subs := s.subs.dropLast, main := old }
+    | some old => some { s with subs := s.subs.dropLast, main := old, offset := 0 }
 
 def run (s : St) : List Op → Option St
   | [] => some s
